@@ -109,7 +109,32 @@ class Gen:
         self.tags.append("fmt%d" % N)
         return "do local f = string.rep('x', %d) .. '%%d' emit(#string.format(f, 7)) end" % N
 
+    def callback(self):
+        """bounded work inside a callback the library / VM runs: the limit is swept through it like through any code"""
+        N = self.n(1, 25)
+        k = self.rng.below(6)
+        self.uid += 1
+        self.tags.append("cb%d_%d" % (k, N))
+        burn = "local x = 0 for i = 1, %d do x = x + i end" % N
+        if k == 0:
+            return ("do local t = {5, 3, 8, 1, 9, 2} P(table.sort, t, function(a, b) %s return a < b end) "
+                    "emit(table.concat(t, ',')) end" % burn)
+        if k == 1:
+            return "do emit((string.gsub('abc', '%%w', function(c) %s return c .. x end))) end" % burn
+        if k == 2:
+            return ("do local o = setmetatable({}, {__index = function(t, k) %s return x end}) emit(P(function() return o.a + o.b end)) end"
+                    % burn)
+        if k == 3:
+            return ("do emit(P(function() local c <close> = setmetatable({}, {__close = function() %s emit('CLOSEcb%d') end}) "
+                    "error('E', 0) end)) end" % (burn, self.uid))
+        if k == 4:
+            return "do emit(xpcall(function() error('boom', 0) end, function(m) %s return m .. x end)) end" % burn
+        return ("do local mt = {__lt = function(a, b) %s return a.v < b.v end} local t = {} for i = 1, 4 do t[i] = setmetatable({v = (i * 3) %% 5}, mt) end "
+                "P(table.sort, t) emit(t[1].v, t[4].v) end" % burn)
+
     def stmt(self):
+        if self.rng.below(100) < 14:
+            return self.callback()
         k = self.rng.below(100)
         if k < 16:
             return self.loop()
@@ -178,10 +203,11 @@ def program(body, resource, limit, outer=""):
 
 
 class Run:
-    __slots__ = ("id", "cls", "kib", "trace", "status", "ucpu", "umem", "ret", "body", "intercepted")
+    __slots__ = ("id", "cls", "kib", "trace", "status", "ucpu", "umem", "ret", "body", "intercepted", "ms")
 
     def __init__(self, pid, cls, kib, trace):
         self.id, self.cls, self.kib, self.trace = pid, cls, kib, trace
+        self.ms = 0
         self.status = self.ucpu = self.umem = self.ret = None
         self.body = trace
         self.intercepted = INTERCEPT in trace or any(
@@ -218,6 +244,7 @@ def run_batch(binpath, progs, timeout=20):
                     out[w[1]] = Run(w[1], "timeout", 0, [])
                 else:
                     out[w[1]] = Run(w[1], w[2], int(w[3]) if len(w) > 3 else 0, tr.split())
+                    out[w[1]].ms = int(w[4]) if len(w) > 4 else 0
                 running = None
         if running is not None and running not in out:
             msg = "Too much mem released" if "Too much mem released" in se else se.strip().split("\n")[0][:200] if se.strip() else "exit %d" % rc
